@@ -25,8 +25,49 @@ NEXT = ["none", "step", "table_is_not_allowed_text", "scenario", "tagged_scenari
 PLACES = ["scenario", "background", "outline", "rule_scenario", "rule_background"]
 
 
+def doc_string_lines(rc, spec, steps, i, delim, mt, opener_pad, closer, empty):
+    """Lines of one doc string (opening, content, closing) and the content the statement prescribes."""
+    other = "```" if delim == '"""' else '"""'
+    title = lambda role, name: rc.choice(spec[role]) + ": " + name
+    kw = lambda: rc.choice(steps)[0]
+    pool = [title("feature", "x"), title("scenario", "x"), title("examples", "x"), title("rule", "x"), title("background", "x"),
+            "@tag here", "@bad tag", "# comment", "#language: fr", "# language: zz", "| a | b |", "| ragged |", kw() + "x", "* x",
+            '\\"\\"\\"', "\\`\\`\\`", other, other + "json", "x" + delim, "", " ", "\t", "   ", '\\"\\"\\" and \\"\\"\\"', "\\", "<a>",
+            "\\`\\`\\` and \\`\\`\\`", 'mixed \\"\\"\\" \\`\\`\\`']
+    lines = [i + delim + opener_pad[0] + mt + opener_pad[1]]
+    content = []
+    n = 0 if empty else rc.choice([0, 1, 2, 3, 5, 8, 30]) if rc.random() < 0.3 else rc.randint(0, 6)
+    for _ in range(n):
+        c = rc.random()
+        if c < 0.7:
+            body = rc.choice(pool)
+        else:
+            body = "".join(rc.choice(["a", " ", "é", "\U0001F600", "|", "@", "#", '"', "`", "\\", ":", "\t", "　", "\x0b"]) for _ in range(rc.randint(0, 10)))
+        rel = rc.choice(["same", "more", "less"])
+        if rel == "same":
+            li = i
+        elif rel == "more":
+            li = i + rc.choice([" ", "  ", "\t"])
+        else:
+            li = i[:rc.randint(0, len(i))] if i else i
+        line = li + body
+        if line.lstrip().startswith(delim):
+            line = li + "x" + body
+        lines.append(line)
+        if line.strip() == "":
+            exp = line[len(i):] if len(line) >= len(i) else ""
+        else:
+            own = len(line) - len(line.lstrip())
+            exp = line[len(i):] if own >= len(i) else line.lstrip()
+        exp = exp.replace('\\"\\"\\"', '"""') if delim == '"""' else exp.replace("\\`\\`\\`", "```")
+        content.append(exp)
+    lines.append(i + delim + closer)
+    return lines, content
+
+
 def build(r, dialect, empty=False, fixed=None):
-    """-> (text, intent dict)"""
+    """-> (text, intent of the FIRST doc string incl. the list `all` of every doc string's intent)"""
+    import random as _random
     spec = dialects.master()[dialect]
     steps = dialects.step_keywords(spec)
     def title(role, name):
@@ -40,55 +81,31 @@ def build(r, dialect, empty=False, fixed=None):
         lines.append("  " + title("background", "b"))
     else:
         lines.append("  " + title("scenarioOutline" if place == "outline" else "scenario", "s"))
-    lines.append("    " + kw() + "step with doc string")
-    i = "".join(r.choice("  \t") for _ in range(r.choice([0, 2, 4, 6, 7])))
-    delim = r.choice(['"""', "```"])
-    other = "```" if delim == '"""' else '"""'
-    mt = r.choice(["", "", "json", "text/x y", "<a>", "application/x;v=1"])
-    opening_line = len(lines) + 1
-    lines.append(i + delim + r.choice(["", " ", "\t"]) + mt + r.choice(["", "  "]))
-    # content lines draw from their own generator so that the variant with an empty doc string
-    # makes exactly the same choices everywhere else
-    import random as _random
-    r_outer, r = r, _random.Random(r.random())
-    content = []
-    pool = [title("feature", "x"), title("scenario", "x"), title("examples", "x"), title("rule", "x"), title("background", "x"),
-            "@tag here", "@bad tag", "# comment", "#language: fr", "# language: zz", "| a | b |", "| ragged |", kw() + "x", "* x",
-            '\\"\\"\\"', "\\`\\`\\`", other, other + "json", "x" + delim, "", " ", "\t", "   ", '\\"\\"\\" and \\"\\"\\"', "\\", "<a>"]
-    n = 0 if empty else r.choice([0, 1, 2, 3, 5, 8, 30]) if r.random() < 0.3 else r.randint(0, 6)
-    for _ in range(n):
-        c = r.random()
-        if c < 0.7:
-            body = r.choice(pool)
-        else:
-            body = "".join(r.choice(["a", " ", "é", "\U0001F600", "|", "@", "#", '"', "`", "\\", ":", "\t", "　", "\x0b"]) for _ in range(r.randint(0, 10)))
-        rel = r.choice(["same", "more", "less"])
-        if rel == "same":
-            li = i
-        elif rel == "more":
-            li = i + r.choice([" ", "  ", "\t"])
-        else:
-            li = i[:r.randint(0, len(i))] if i else i
-        line = li + body
-        if line.lstrip().startswith(delim):
-            line = li + "x" + body
-        lines.append(line)
-        if line.strip() == "":
-            exp = line[len(i):] if len(line) >= len(i) else ""
-        else:
-            own = len(line) - len(line.lstrip())
-            exp = line[len(i):] if own >= len(i) else line.lstrip()
-        exp = exp.replace('\\"\\"\\"', '"""') if delim == '"""' else exp.replace("\\`\\`\\`", "```")
-        content.append(exp)
-    r = r_outer
-    lines.append(i + delim + r.choice(["", "", " trailing text is ignored"]))
-    closing_line = len(lines)
+    ndoc = r.choice([1, 1, 2, 3])
+    intents = []
+    for k in range(ndoc):
+        lines.append("    " + kw() + "step with doc string %d" % k)
+        if r.random() < 0.2:
+            lines.append(r.choice(["", "    # between step and doc string"]))
+        i = "".join(r.choice("  \t") for _ in range(r.choice([0, 2, 4, 6, 7])))
+        delim = r.choice(['"""', "```"])
+        mt = r.choice(["", "", "json", "text/x y", "<a>", "application/x;v=1"])
+        opener_pad = (r.choice(["", " ", "\t"]), r.choice(["", "  "]))
+        closer = r.choice(["", "", " trailing text is ignored"])
+        # content lines draw from their own generator so that the variant with an empty first doc string
+        # makes exactly the same choices everywhere else
+        rc = _random.Random(r.random())
+        opening_line = len(lines) + 1
+        dl, content = doc_string_lines(rc, spec, steps, i, delim, mt, opener_pad, closer, empty and k == 0)
+        lines += dl
+        intents.append({"content": "\n".join(content), "delimiter": delim, "mediaType": mt or None,
+                        "location": {"line": opening_line, "column": len(i) + 1}, "opening_line": opening_line,
+                        "closing_line": len(lines), "n_content": len(content)})
+    other = "```"
     nxt = r.choice(NEXT) if fixed is None else fixed
     cont = []
     if nxt == "step":
         cont = ["    " + kw() + "after"]
-    elif nxt == "table_is_not_allowed_text":
-        cont = []      # a table row after a doc string would be an error; covered by C14
     elif nxt == "scenario":
         cont = ["  " + title("scenario", "next"), "    " + kw() + "n"]
     elif nxt == "tagged_scenario":
@@ -103,14 +120,12 @@ def build(r, dialect, empty=False, fixed=None):
         cont = ["    # comment", "", "    " + kw() + "after"]
     elif nxt == "another_docstring_step":
         cont = ["    " + kw() + "second", "      " + other, "      " + title("feature", "inside second"), "      " + other]
-    if place.endswith("background") and nxt in ("none", "step", "comment_blank_step", "another_docstring_step", "table_is_not_allowed_text", "examples", "tagged_examples"):
-        pass
+        intents.append({"content": cont[2].strip(), "delimiter": other, "mediaType": None, "location": {"line": len(lines) + 2, "column": 7},
+                        "opening_line": len(lines) + 2, "closing_line": len(lines) + 4, "n_content": 1})
     lines += cont
     nl = r.choice(["\n", "\n", "\r\n"])
     text = nl.join(lines) + (nl if r.random() < 0.85 else "")
-    intent = {"content": "\n".join(content), "delimiter": delim, "mediaType": mt or None,
-              "location": {"line": opening_line, "column": len(i) + 1}, "opening_line": opening_line, "closing_line": closing_line,
-              "n_content": len(content), "place": place, "next": nxt}
+    intent = dict(intents[0], place=place, next=nxt, all=intents)
     return text, intent
 
 
@@ -162,13 +177,19 @@ def check_case(seed, i, M):
     if not ds:
         M.violation("C13.missing", {"what": "no doc string in the AST"}, case)
         return
-    d = ds[0]
-    want = {k: intent[k] for k in ("content", "delimiter", "location")}
-    if intent["mediaType"]:
-        want["mediaType"] = intent["mediaType"]
-    if d != want:
-        diff = {k: (d.get(k), want.get(k)) for k in set(d) | set(want) if d.get(k) != want.get(k)}
-        M.violation("C13.content", {"what": "doc string differs from what was written between the delimiters", "differences": short(diff, 400)}, case)
+    M.hist("doc_strings_per_document", len(intent["all"]))
+    if len(ds) != len(intent["all"]):
+        M.violation("C13.content", {"what": "number of doc strings in the AST differs from the number written", "got": len(ds), "want": len(intent["all"])}, case)
+    for n_, (d, it) in enumerate(zip(ds, intent["all"])):
+        want = {k: it[k] for k in ("content", "delimiter", "location")}
+        if it["mediaType"]:
+            want["mediaType"] = it["mediaType"]
+        M.count("docstrings_compared")
+        if d != want:
+            diff = {k: (d.get(k), want.get(k)) for k in set(d) | set(want) if d.get(k) != want.get(k)}
+            M.violation("C13.content", {"what": "doc string differs from what was written between the delimiters", "which": n_,
+                                        "delimiters_in_document": [x["delimiter"] for x in intent["all"]], "differences": short(diff, 400)}, case)
+            break
     # (3) opacity hook
     log = o.log
     calls = [x for x in log.opaque if x[0] == "call"]
@@ -181,8 +202,8 @@ def check_case(seed, i, M):
             M.violation("C13.opacity", {"what": "a line inside a doc string was matched as Gherkin", "matcher": x[1], "line": x[2]}, case)
             break
     # lines between the delimiters must all be delivered as Other
-    inside = [(l, k) for l, k in log.builds if l != "EOF" and intent["opening_line"] < l < intent["closing_line"] and l <= intent["opening_line"] + intent["n_content"]]
-    if any(k != "Other" for _, k in inside) or len(inside) != intent["n_content"]:
+    inside = [(l, k) for l, k in log.builds if l != "EOF" and any(it["opening_line"] < l < it["closing_line"] for it in intent["all"])]
+    if any(k != "Other" for _, k in inside) or len(inside) != sum(it["n_content"] for it in intent["all"]):
         M.violation("C13.opacity", {"what": "content lines were not all delivered as free text", "delivered": inside[:6]}, case)
     # (2) continuation: same document with an empty doc string
     r.setstate(state)
